@@ -153,7 +153,9 @@ pub fn gen_resp_head(ctx: &mut Ctx, max_generic: usize, allow_over: bool) -> Res
             _ => {}
         }
         if ((300..400).contains(&status) && ctx.chance(5, 6)) || ctx.chance(1, 10) {
-            let loc = *ctx.pick(&["/next", "http://b.test/p?q=1", "../up", "//c.test/"]);
+            // the head parser hands the value out as it is: whether it can be resolved is a later
+            // question (C14), so unresolvable values are as good as any here
+            let loc = *ctx.pick(&["/next", "http://b.test/p?q=1", "../up", "//c.test/", "http://", "https://[::1/x", "http://a b/", "urn:isbn:0451450523"]);
             extra.push(Field::plain("Location", loc));
             if ctx.chance(1, 4) {
                 // Location may be repeated like any other field
@@ -430,7 +432,15 @@ pub fn c20(ctx: &mut Ctx) -> R {
         bytes = b;
         line_ends = le;
     } else {
-        let h = RespHead { http11: ctx.flip(), status: gen_status(ctx), reason: gen_reason(ctx), fields: fields.clone() };
+        // a redirect with a Location among its fields (same field count, so the limit case stands)
+        let with_loc = !fields.is_empty() && ctx.chance(1, 3);
+        if with_loc {
+            let i = ctx.draw_usize(fields.len());
+            fields[i] = Field::plain(*ctx.pick(&["Location", "location"]), *ctx.pick(&["/next", "http://b.test/p?q=1", "../up"]));
+            ctx.count("p:response_with_location");
+        }
+        let st = if with_loc && ctx.chance(3, 4) { *ctx.pick(&[301u16, 302, 303, 307, 308]) } else { gen_status(ctx) };
+        let h = RespHead { http11: ctx.flip(), status: st, reason: gen_reason(ctx), fields: fields.clone() };
         let rd = h.render();
         bytes = rd.bytes;
         line_ends = rd.line_ends;
